@@ -33,6 +33,10 @@ ChkP(cond, pids, what) ==
               ELSE TLCSet(1, <<l, "P:" \o (CHOOSE q \in pids : Focus(q)) \o ":" \o what>>) /\ FALSE
          ELSE PrintT(<<"NONFOCUS", l, pids, what>>)
 
+\* Strict-tier conjunct that never rejects: a false one is reported as DRIFT (the implementation left the layout the
+\* specification predicts -- legal, but worth a look) and the trace goes on.
+Soft(cond, tag) == IF cond THEN TRUE ELSE PrintT(<<"DRIFT", l, tag>>)
+
 \* progress register (2): highest event index consumed
 Seen == TLCSet(2, l)
 
